@@ -109,9 +109,29 @@ def make_overlay(scratch, name, files, shims, inject):
     return os.path.join(out, "overlay.json")
 
 
+_alt_modfile = None
+
+
+def alt_modfile():
+    """VERIF_REPO=<dir> points the harness at another checkout of rs/zerolog (used to evaluate seeded changes in
+    scratch worktrees without touching /repo): a copy of harness/go.mod with the replace directive redirected."""
+    global _alt_modfile
+    if REPO == "/repo":
+        return []
+    if _alt_modfile is None:
+        d = tempfile.mkdtemp(prefix="verif-mod-")
+        import atexit
+        atexit.register(shutil.rmtree, d, True)
+        mod = open(os.path.join(HARNESS, "go.mod")).read().replace("=> /repo", "=> " + REPO)
+        open(os.path.join(d, "go.mod"), "w").write(mod)
+        shutil.copy(os.path.join(HARNESS, "go.sum"), os.path.join(d, "go.sum"))
+        _alt_modfile = os.path.join(d, "go.mod")
+    return ["-modfile=" + _alt_modfile]
+
+
 def go_build(pkg, out, overlay=None, tags=None, race=False, test=False, cwd=HARNESS, extra=None):
     sync_gosum()
-    cmd = ["go", "test", "-c", "-vet=off"] if test else ["go", "build"]
+    cmd = (["go", "test", "-c", "-vet=off"] if test else ["go", "build"]) + alt_modfile()
     if overlay:
         cmd += ["-overlay", overlay]
     if tags:
